@@ -55,10 +55,17 @@ def check_outside_class(kf, ob, con, timeout_ms):
         inside = f(ob, con)
     except Exception as ex:  # noqa
         return "class-error:" + repr(ex)[:100]
-    r, dt, s = _check(ob.hyps + [z3.Not(inside)], ob.goal, timeout_ms)
+    hints = []
+    if isinstance(inside, tuple):
+        inside, hints = inside
+    for h in hints:   # a hint must be valid on its own before it may be used
+        r, dt, s = _check(ob.hyps, h, timeout_ms)
+        if r != z3.unsat:
+            return "hint-not-valid"
+    r, dt, s = _check(ob.hyps + hints + [z3.Not(inside)], ob.goal, timeout_ms)
     if r == z3.unknown:
         qf = [h for h in ob.hyps if not z3.is_quantifier(h)]
-        r, dt, s = _check(qf + [z3.Not(inside)], ob.goal, timeout_ms)
+        r, dt, s = _check(qf + hints + [z3.Not(inside)], ob.goal, timeout_ms)
     return str(r)
 
 
